@@ -149,6 +149,37 @@ def generate(seed, prop):
         if rng.random() < 0.35:
             middle = {"op": "process_bad", "recs": b[::-1], "s": k, "kind": "nan_last"}    # the long call fails part-way
         ops[pos:pos] = [{"op": "process", "recs": a, "s": k, "own": True}, middle, {"op": "repeat", "which": 0}]
+    if own and n_rec >= 2 and rng.random() < 0.25:
+        # biased schedule: process-global state left behind by a call that FAILED with a related settings object.
+        # A (settings k) - a failing call with a sibling of those settings (another processing class, same everything
+        # else) - other recordings B of the same count with settings k - A again
+        k = rng.randrange(n_set)
+        sib = copy.deepcopy(sets[k])
+        family = ["traditional", "single_azimuth", "rotdpp", "azimuthal", "diffuse_field", "psd"]
+        sib["cls"] = rng.choice([c for c in family if c != sib["cls"]])
+        sib.setdefault("method", "geometric_mean")
+        if sib["cls"] == "single_azimuth":
+            sib["method"], sib["az"] = "single_azimuth", sets[k].get("az", 20.0)
+        if sib["cls"] == "traditional" and sib["method"] in ("single_azimuth", "directional_energy"):
+            sib["method"] = "geometric_mean"
+        if sib["cls"] in ("rotdpp", "azimuthal"):
+            sib["azs"] = sets[k].get("azs") or [float(sets[k].get("az", 0.0)), 90.0]
+            sib["pp"] = sets[k].get("pp", 50.0)
+        sets.append(sib)
+        n_set += 1
+        if rng.random() < 0.7:
+            for r in recs:                                  # one time step throughout, so that A and B are look-alikes
+                r["rate"] = recs[0]["rate"]
+                r.pop("dt_ulps", None)
+        m = rng.randint(1, max(1, n_rec // 2))
+        perm = rng.sample(range(n_rec), n_rec)
+        a, b = perm[:m], perm[m:2 * m]
+        pos = rng.randint(0, len(ops))
+        ops[pos:pos] = [{"op": "process", "recs": a, "s": k, "own": True, "tag": "A"},
+                        {"op": "process_bad", "recs": rng.sample(range(n_rec), rng.randint(1, n_rec)), "s": n_set - 1,
+                         "kind": rng.choice(["nan_last", "bad_window_type", "unknown_operator", "above_nyquist"])},
+                        {"op": "process", "recs": b, "s": k, "own": True},
+                        {"op": "repeat", "which": 0, "tag": "A"}]
     if many:
         ops = [{"op": "process", "recs": rng.sample(range(n_rec), n_rec) if rng.random() < 0.5 else list(range(n_rec)),
                 "s": rng.randrange(n_set), "own": False, "as_tuple": False}]
@@ -449,7 +480,7 @@ def apply_op(ctx, st, op, prop):
     name = op["op"]
     if name in ("process", "repeat"):
         if name == "repeat":
-            live = [c for c in st.calls if c["own"] and c["exc"] is None and
+            live = [c for c in st.calls if c["own"] and c["exc"] is None and (not op.get("tag") or c.get("tag") == op["tag"]) and
                     all(st.rec_version[i] == v for i, v in zip(c["recs"], c["rec_versions"])) and
                     st.set_version[c["s"]] == c["set_version"]]
             if not live:
@@ -482,7 +513,7 @@ def apply_op(ctx, st, op, prop):
             # references are computed from the pristine pool objects, never from the
             # copies handed to process() (which the call may have altered: C09's business)
             oracle_c03(ctx, st, op, [st.recs[i] for i in idx], settings, spec, res, exc)
-        call = {"recs": list(idx), "s": k, "own": own, "exc": exc,
+        call = {"recs": list(idx), "s": k, "own": own, "exc": exc, "tag": op.get("tag") if name == "process" else None,
                 "rec_versions": [st.rec_version[i] for i in idx], "set_version": st.set_version[k],
                 "result": res, "snap": semantic_snap(res) if res is not None else None}
         if ctx.wants("C09") and own and res is not None:
@@ -563,6 +594,11 @@ def apply_op(ctx, st, op, prop):
         elif op["kind"] == "bad_window_type":
             settings = make_settings(H, spec)
             settings.window_type_and_width = ["hann", 0.1]
+        elif op["kind"] == "above_nyquist":
+            settings = make_settings(H, spec)
+            f0 = list(np.asarray(settings.smoothing["center_frequencies_in_hz"], float))
+            f0[-1] = 1.0e4                                   # far above every Nyquist frequency: the call must be refused
+            settings.smoothing["center_frequencies_in_hz"] = f0
         else:
             settings = make_settings(H, spec)
             settings.smoothing["operator"] = "no_such_operator"
